@@ -103,17 +103,17 @@ Definition x_conforms (c : clock) (e : engine) (x : xev) : Prop :=
   let p := a_params a in
   match x with
   | XCheckin k f now debit =>
-      0 <= k < 2 ^ 160 /\ conforms (c k) (get_create e k now) (ECheckin f now (a_pc a) p debit)
+      0 <= k < 2 ^ 160 /\ conforms mx (c k) (get_create e k now) (ECheckin f now (a_pc a) p debit)
   | XPlan k fs te now =>
       0 <= k < 2 ^ 160 /\ pMaxStack p = mx /\
       match plan_args e fs te now with
       | inl (ts, te', d, tr) =>
-          conforms (c k) (get_create e k now) (EPlan ts te' d tr now (as_predictor (a_pred a)))
+          conforms mx (c k) (get_create e k now) (EPlan ts te' d tr now (as_predictor (a_pred a)))
       | inr _ => True
       end
   | XUpdate now fit =>
       now mod SecondsInDay = 0 /\ 0 <= pThreads p < 256 /\ valid_threads (pThreads p) = true /\
-      forall k t, tget (e_table e) k = Some t -> conforms (c k) t (EUpdate p (share_of e) now)
+      forall k t, tget (e_table e) k = Some t -> conforms mx (c k) t (EUpdate p (share_of e) now)
   | XSetParams _ => True
   end.
 
